@@ -56,6 +56,10 @@ type ProgCfg struct {
 	NestedNames  bool
 	FnLess       bool // allow commands without fn
 	LonesomeDash bool
+	Env          int // percent of env-capable options bound to a variable
+	SetCalled    int // percent of options defined with SetCalled(true)
+	FnErr        bool
+	ForceKinds   []Kind // kinds of the first root options
 }
 
 var AllKinds = []Kind{KBool, KIncr, KString, KInt, KFloat, KStringOpt, KIntOpt, KFloatOpt, KStrings, KInts, KFloats, KMap}
@@ -143,6 +147,9 @@ func GenProg(r *Rng, cfg ProgCfg) *Prog {
 		if cfg.FnLess && r.Chance(1, 4) {
 			c.HasFn = false
 		}
+		if cfg.FnErr && c.HasFn && r.Chance(1, 6) {
+			c.FnErr = true
+		}
 		taken := map[string]bool{}
 		if !isRoot && cfg.Wrapper && r.Chance(1, 6) {
 			c.Unset = true
@@ -166,8 +173,14 @@ func GenProg(r *Rng, cfg ProgCfg) *Prog {
 			rng = cfg.RootOpts
 		}
 		n := r.Range(rng[0], rng[1])
+		if isRoot && n < len(cfg.ForceKinds) {
+			n = len(cfg.ForceKinds)
+		}
 		for i := 0; i < n; i++ {
 			o := &Opt{ID: id, Kind: cfg.Kinds[r.Intn(len(cfg.Kinds))]}
+			if isRoot && i < len(cfg.ForceKinds) {
+				o.Kind = cfg.ForceKinds[i]
+			}
 			id++
 			o.Name = ng.optName(taken)
 			taken[o.Name] = true
@@ -195,6 +208,29 @@ func GenProg(r *Rng, cfg ProgCfg) *Prog {
 				o.Max = r.Range(o.Min, cfg.MaxMulti)
 			}
 			o.Desc = fmt.Sprintf("D%dD", o.ID)
+			if cfg.Env > 0 && r.Intn(100) < cfg.Env && (o.Kind == KBool || o.Kind.IsScalar() || o.Kind.IsOptional()) {
+				o.Env = fmt.Sprintf("VERIF_E%d", o.ID)
+				switch r.Intn(4) {
+				case 0: // unset
+				case 1:
+					o.EnvSet, o.EnvVal = true, ""
+				default:
+					o.EnvSet = true
+					switch {
+					case o.Kind == KBool:
+						o.EnvVal = r.Pick([]string{"true", "false", "TRUE", "False", "tRuE"})
+					case o.Kind.IsInt():
+						o.EnvVal = strconv.Itoa(r.Range(-50, 5000))
+					case o.Kind.IsFloat():
+						o.EnvVal = r.Pick([]string{"2.5", "-0.125", "1e3", "7"})
+					default:
+						o.EnvVal = r.Pick([]string{"envtext", "e v", "-e", "--", "é=1"})
+					}
+				}
+			}
+			if cfg.SetCalled > 0 && r.Intn(100) < cfg.SetCalled {
+				o.SetCalled = true
+			}
 			c.Opts = append(c.Opts, o)
 		}
 		if cfg.LonesomeDash && isRoot && r.Chance(1, 4) && !taken["-"] {
